@@ -29,7 +29,8 @@ def one(args):
     return path, prop, "ran", [(k, msgs.get(k, "")[:160]) for k in new], errs
 
 if __name__ == "__main__":
-    paths = sys.argv[1:]
+    record = "--record" in sys.argv
+    paths = [a for a in sys.argv[1:] if a != "--record"]
     with ProcessPoolExecutor(16) as ex:
         base = {p: (k, e) for p, k, e in ex.map(clean, PROPS)}
         jobs = [(path, p, base[p][0]) for path in paths for p in PROPS]
@@ -47,3 +48,10 @@ if __name__ == "__main__":
                 print("     ", p, k, m)
         for p, e in errs:
             print("     ", p, "ERR", e[0][:200])
+        if record and "/benign/" in os.path.abspath(path):
+            bid = os.path.basename(os.path.dirname(os.path.abspath(path)))
+            rec = os.path.join("/verif/benign", "RESULTS.json")
+            rows = {r["id"]: r for r in json.load(open(rec))} if os.path.exists(rec) else {}
+            rows[bid] = {"id": bid, "status": {"FIRES": "FALSE-ALARM"}.get(status, status),
+                         "fired": [[p, [k for k, _ in n][:4]] for p, n in fired], "errors": [[p, [x[:160] for x in e[:2]]] for p, e in errs]}
+            json.dump([rows[k] for k in sorted(rows)], open(rec, "w"), indent=1)
